@@ -63,6 +63,7 @@ class Region:
         self.nodes: list[str] = []             # statement/node ids created directly here, in order
         self.closed = closed                   # standalone HUGR: no references to anything outside
         self.stmts: list[dict] = []
+        self.consts: list[tuple] = []          # (load statement id, type) of constants created from here
 
     def avail(self):
         return self.local + self.outer + self.dom
@@ -144,6 +145,15 @@ class ProgGen:
 
     # ------------------------------------------------------------------ producing values
     def load_const(self, rg: Region, ty, at_module=None):
+        again = [c for c in rg.consts if c[1] == ty]
+        if again and self.r.random() < 0.35:
+            # a second LoadConstant fed by the Const node of an earlier load (multi-target static port)
+            w = self.wire(ty)
+            self.emit(rg, {"s": "load", "id": self.nid(), "reuse": self.r.choice(again)[0], "ty": ty,
+                           "out": w["id"]})
+            rg.local.append(w)
+            self.feat("const-loaded-again")
+            return w
         v = self.vg.value(ty, 3)
         w = self.wire(ty)
         st = {"s": "load", "id": self.nid(), "val": v, "ty": ty, "out": w["id"]}
@@ -160,6 +170,7 @@ class ProgGen:
                 if st["const_parent"] == "root":
                     self.feat("static-ext-edge")
         self.emit(rg, st)
+        rg.consts.append((st["id"], ty))
         rg.local.append(w)
         self.feat("const")
         return w
@@ -258,6 +269,18 @@ class ProgGen:
             self.feat("metadata")
         outs = [self.new_out(rg, t) for t in out_tys]
         st["outs"] = [o["id"] for o in outs]
+        if st["via"] == "extend":
+            # commands of one extend(...) call cannot mention each other's outputs: batch this one with the
+            # directly preceding extend commands when it is independent of them
+            made, i = set(), len(rg.stmts) - 1
+            while i >= 0 and rg.stmts[i].get("s") == "op" and rg.stmts[i].get("via") == "extend":
+                made |= set(rg.stmts[i]["outs"])
+                if not rg.stmts[i].get("batch"):
+                    break
+                i -= 1
+            if made and not (set(st["args"]) & made):
+                st["batch"] = True
+                self.feat("extend-multi")
         self.emit(rg, st)
         return outs
 
